@@ -137,8 +137,14 @@ def _rows_tuple(func):
                                                    ast.ListComp)):
             cur = vals[0]
             continue
-        tups = [p['elt'] for p in K.list_contributions(func, cur.id)
-                if 'other' not in p and isinstance(p.get('elt'), ast.Tuple)]
+        def row(elt):
+            # the row, possibly built in a local of its own first
+            if isinstance(elt, ast.Name) and len(defs.get(elt.id, [])) == 1:
+                return defs[elt.id][0]
+            return elt
+        tups = [row(p['elt']) for p in K.list_contributions(func, cur.id)
+                if 'other' not in p and isinstance(row(p.get('elt')),
+                                                   ast.Tuple)]
         return tups[0] if len(tups) == 1 else None
     return None
 
@@ -174,12 +180,13 @@ def _selection(ctx):
                  if 'other' not in p and p['elt'] is not None]
         by_ast = dict((id(n.ast), n) for n in graph.nodes
                       if n.kind == 'stmt' and n.ast is not None)
+        # (the row may be built in a local first)
         adds = [(by_ast[id(p['node'])], p) for p in parts
                 if id(p['node']) in by_ast and
-                isinstance(p['elt'], ast.Tuple)]
+                isinstance(K.rexpr(func, p['elt']), ast.Tuple)]
         ctx.require(adds, 'selection into %s' % lst.id, rule='C18.2')
         for node, part in adds:
-            elts = part['elt'].elts
+            elts = K.rexpr(func, part['elt']).elts
             when = elts[0] if len(elts) == 3 else (
                 elts[1] if len(elts) > 1 else elts[0])
             wants = [_expiry_atom(N.txt(when)),
@@ -704,7 +711,13 @@ def _reader_filter(ctx, mod):
         not parts[0]['conditional'] and parts[0]['elt'] is not None and \
         len(parts[0]['domains']) == 1 and \
         'execute(' in K.rtxt(down, parts[0]['domains'][0][1]) and \
-        N.txt(parts[0]['elt']) == '%s[0]' % N.txt(parts[0]['domains'][0][0])
+        (N.txt(parts[0]['elt']) == '%s[0]' % N.txt(
+            parts[0]['domains'][0][0]) or (
+                # the row destructured in the loop header: (col,)
+                isinstance(parts[0]['domains'][0][0], ast.Tuple) and
+                len(parts[0]['domains'][0][0].elts) >= 1 and
+                N.txt(parts[0]['elt']) == N.txt(
+                    parts[0]['domains'][0][0].elts[0])))
     ctx.ob('C18.5', down, None, okd,
            'download_batch returns the selected column of every row of the '
            'query', construct='download result')
